@@ -211,6 +211,33 @@ def check_pair(sname, lname, damp, nb, res):
                         j = int(np.argmax(np.abs(r.F - Fi).max(axis=0)))
                         msgs.append((case, "interface force differs from the directly coupled system (force case %d): rel err / tol %.3g > %.3g at %.6g Hz: ntfl %s, direct %s" % (k, eF, tol, freq[j], r.F[:, j].tolist(), Fi[:, j].tolist()), "F"))
                         break
+            # general recovery matrices: the same scaling/sign change of the interface coordinates on both sides
+            # (q_b = S x_b): A_gen = S A, F_gen = S^-T F, AM_gen = S^-T AM S^-1
+            svec = np.array([2.0, -1.0, 0.5])[:nb]
+            Ssrc = form_inputs(src, bs, "drm")
+            Sld = form_inputs(load, bl, "drm")
+            Ssrc[3] = svec[:, None] * Ssrc[3]
+            Sld[3] = svec[:, None] * Sld[3]
+            case = dict(part="pair", src=sname, load=lname, damp=damp, bs=bs, bl=bl, fs="drm-scaled", fl="drm-scaled")
+            As, A, Fi = refs[-1]
+            try:
+                with warnings.catch_warnings():
+                    warnings.simplefilter("ignore")
+                    rg = frclim.ntfl(Ssrc, Sld, svec[:, None] * As, freq)
+                res.ev("ntfl/drm-scaled/nb%d/%s" % (nb, damp))
+                Ag, Fg = svec[:, None] * A, Fi / svec[:, None]
+                eA = (np.abs(rg.A - Ag).max(axis=0) / np.maximum(np.abs(Ag).max(axis=0), 1e-300) / tolv).max()
+                eF = (np.abs(rg.F - Fg).max(axis=0) / np.maximum(np.abs(Fg).max(axis=0), 1e-300) / tolv).max()
+                if not (eA <= 4 and eF <= 4):
+                    msgs.append((case, "recovery matrix with scaled/negated rows: interface acceleration/force differ from the directly coupled system expressed in the scaled interface coordinates (err/tol %.3g, %.3g)" % (eA, eF), "scaled"))
+                for j in range(len(freq)):
+                    Hg = svec[:, None] * Hs[:, j, :] * svec[None, :]
+                    P = rg.SAM[:, j, :] @ Hg
+                    if np.abs(P - np.eye(nb)).max() > 4 * tolv[j] * max(1.0, np.linalg.cond(Hg)):
+                        msgs.append((case, "recovery matrix with scaled/negated rows: SAM(%.6g Hz) is not the inverse of T H T^T" % freq[j], "scaled-AM"))
+                        break
+            except Exception as e:  # noqa
+                msgs.append((case, "ntfl with a scaled recovery matrix raised %r" % (e,), "scaled-raise"))
             # exactly 0 Hz (single interface DOF): everything is rigid - apparent mass = physical mass,
             # A = sum(F)/(ms + ml), F = ml * A
             if nb == 1:
